@@ -236,6 +236,34 @@ def _bounds_from_constraints(A, constraints, env):
         if is_binop(cond):
             op, l, r = cond[1], cond[2], cond[3]
             lv, rv = deref(env, l), deref(env, r)
+            isf = len(cond) > 4 and cond[4] in ('f64', 'f32')
+            if isf and op in ('Lt', 'Le', 'Gt', 'Ge') and (uncast(lv) == uncast(A) or uncast(rv) == uncast(A)):
+                # a comparison of doubles: the constant is what the compiled code computes (`MAX as f64` rounds), and the
+                # bound on the TRUNCATED value follows from it: v <= c gives trunc(v) <= trunc(c), v < c gives trunc(v) <= trunc(pred(c))
+                import math
+                if uncast(lv) == uncast(A):
+                    c = fold_f64(rv)
+                else:
+                    c = fold_f64(lv)
+                    op = {'Lt': 'Gt', 'Gt': 'Lt', 'Le': 'Ge', 'Ge': 'Le'}[op]
+                if c is None:
+                    continue
+                c = float(c)
+                if c != c or c in (math.inf, -math.inf):
+                    continue
+                if (op, t) in (('Ge', True), ('Lt', False)):
+                    k = int(c)          # trunc is monotone: v >= c gives trunc(v) >= trunc(c)
+                    lo = max(lo, k) if lo is not None else k
+                elif (op, t) in (('Gt', True), ('Le', False)):
+                    k = int(math.nextafter(c, math.inf))
+                    lo = max(lo, k) if lo is not None else k
+                elif (op, t) in (('Le', True), ('Gt', False)):
+                    k = int(c)
+                    hi = min(hi, k) if hi is not None else k
+                elif (op, t) in (('Lt', True), ('Ge', False)):
+                    k = int(math.nextafter(c, -math.inf))
+                    hi = min(hi, k) if hi is not None else k
+                continue
             if uncast(lv) == uncast(A) and int_of(rv) is not None:
                 k = int_of(rv)
             elif uncast(rv) == uncast(A) and int_of(lv) is not None:
@@ -432,6 +460,9 @@ def fold_f64(v, depth=0):
     if not isinstance(v, tuple) or not v or depth > 10:
         return None
     if v[0] == 'int':
+        if len(v) > 2 and v[2] in ('f64', 'f32'):
+            # an integer constant the interpreter has already carried through `as f64`: the conversion rounds
+            return float(v[1])
         return v[1]
     if v[0] == 'const' and isinstance(v[1], str):
         m = re.fullmatch(r'(-?[0-9.eE+-]+|-?inf|NaN)f64', v[1].replace('const ', '').replace('_', ''))
@@ -583,3 +614,90 @@ class LocalFlow:
             seen.add(x)
             work.extend(fwd.get(x, ()))
         return seen
+
+
+# ----------------------------------------------------------------------------------------
+def check_placeholder_write_only(ctx, rep, rule):
+    """A forward jump is emitted with a placeholder operand and patched later.  The placeholder is a value like any other 16-bit
+    target: a program whose real target happens to equal it is legal.  So the constant may only be WRITTEN (handed to the operand
+    emitter); code that compares anything with it — a `sanity check` that no placeholder survived, say — refuses or mistreats
+    exactly the programs whose jump lands there."""
+    F = ctx.facts()
+    CMPS = ('Eq', 'Ne', 'Lt', 'Le', 'Gt', 'Ge')
+    # the placeholder constants: named constants handed to the 16-bit operand emitter
+    names = {}
+    nsites = 0
+    for key, fn in F.fns.items():
+        if fn.crate != 'lib':
+            continue
+        for b, t in fn.calls():
+            if callee_name(t) == 'compiler::Compiler::emit_u16' and len(t['args']) > 1:
+                c = op_const(t['args'][1])
+                if c is not None and '::' in str(c.get('text', '')) and c.get('int') is not None:
+                    names[c['text']] = c['int']
+                    nsites += 1
+    rep.count('placeholder_emissions', nsites)
+    if not names:
+        rep.good(rule, 'compiler::Compiler', 'placeholder constants', 'no named placeholder constant is emitted (targets are known when the jump is emitted)', 'src/compiler.rs', nontrivial=False)
+        return
+
+    def mentions(x):
+        if isinstance(x, dict):
+            if x.get('k') == 'const' and x.get('text') in names:
+                return True
+            return any(mentions(v) for v in x.values())
+        if isinstance(x, list):
+            return any(mentions(v) for v in x)
+        return False
+
+    nuse = 0
+    for key in sorted(F.fns):
+        fn = F.fns[key]
+        if fn.crate != 'lib':
+            continue
+        seeds = set()
+        bad = []
+        for b, si, st in fn.stmts():
+            if st['k'] == 'assign' and mentions(st['rv']):
+                nuse += 1
+                rv = st['rv']
+                if rv['k'] == 'binop' and rv.get('op') in CMPS:
+                    bad.append(('compared with a value', st['span']))
+                else:
+                    seeds.add(st['place']['local'])
+        for b, t in fn.calls():
+            if mentions(t['args']):
+                nuse += 1
+                if callee_name(t) == 'compiler::Compiler::emit_u16':
+                    continue
+                seeds.add(t['dest']['local'])
+                nm = callee_name(t)
+                if any(x in nm for x in ('PartialEq', 'PartialOrd', '::cmp::Ord')) or nm.endswith(('::contains', '::starts_with', '::ends_with')):
+                    bad.append(('handed to the comparison %s' % nm, t['span']))
+        if seeds:
+            lf = LocalFlow(fn)
+            tainted = set()
+            for s_ in seeds:
+                tainted |= lf.forward(s_)
+            for b, si, st in fn.stmts():
+                if st['k'] == 'assign' and st['rv']['k'] == 'binop' and st['rv'].get('op') in CMPS and (LocalFlow.locals_of(st['rv']) & tainted):
+                    bad.append(('a value computed from it is compared', st['span']))
+            for b, t in fn.calls():
+                nm = callee_name(t)
+                if (any(x in nm for x in ('PartialEq', 'PartialOrd', '::cmp::Ord')) or nm.endswith(('::contains', '::starts_with', '::ends_with'))) \
+                        and any(op_base_local(a) in tainted for a in t['args']):
+                    bad.append(('a value computed from it is handed to the comparison %s' % nm.split('<')[-1][:40], t['span']))
+        # `match target { PLACEHOLDER => .. }` lowers to a switch on the bare number
+        if key.startswith('compiler::'):
+            for b, blk in enumerate(fn.blocks):
+                t = blk['term']
+                if t['k'] == 'switch' and t.get('ty') == 'u16':
+                    vals = [x[0] if isinstance(x, (list, tuple)) else x for x in t.get('targets', [])]
+                    if any(v in names.values() for v in vals):
+                        bad.append(('a 16-bit value is matched against the number', t['span']))
+        for i, (what, sp) in enumerate(bad):
+            rep.bad(rule, key, 'placeholder read back#%d' % (i + 1),
+                    'the jump placeholder %s is only ever written: here it is %s, so a jump whose real target equals it is taken for an unpatched one' % (
+                        '/'.join(sorted(names)), what), span_loc(sp), key='placeholder read back: %s' % what[:30])
+    rep.good(rule, 'compiler::Compiler', 'placeholder constants', '%s: %d emissions, %d mentions examined; none is compared, directly or through values computed from it' % (
+        ', '.join('%s=%d' % kv for kv in sorted(names.items())), nsites, nuse), 'src/compiler.rs')
